@@ -643,3 +643,96 @@ def rule_partialeval(ctx, prop: str) -> RuleResult:
         res.add(Finding("PEVAL", API, pf.lineno, pf.qualname, "positional", "positional values must bind the leading arguments in order"))
     res.floor = 7
     return res
+
+
+def rule_cfgshape(ctx, prop: str) -> RuleResult:
+    """Shape of the two configuration checks (C10): a changed field that may be read
+    later must raise; a field is left out of the reported set only when it is
+    *definitely* unchanged or overwritten; the reported set is what is returned."""
+    from .. import pat
+
+    ix = ctx.ix
+    res = RuleResult("CFGSHAPE")
+    m = ix.module("src/exo/rewrite/new_eff.py")
+
+    def need(ok, f, key, msg, sample=""):
+        res.instances += 1
+        res.nontrivial += 1
+        res.ob(ok)
+        if sample:
+            res.sample(sample)
+        if not ok:
+            res.add(Finding("CFGSHAPE", m.rel, f.lineno, f.qualname, key, msg))
+
+    for name in ("Check_DeleteConfigWrite", "Check_ExtendEqv"):
+        f = m.func(name)
+        res.analysed.append(f"{m.rel}:{name}")
+        # (1) read-later => definitely unchanged, else raise
+        sw = pat.find("_M_sw = AImplies(AMay(_M_rd), ADef(_M_un))", f.node)
+        ok = False
+        if sw is not None:
+            b = {"_M_sw": sw[1]["_M_sw"]}
+            for n, _ in pat.find_all("if not _M_s.verify(_M_sw):\n    _M__", f.node, b):
+                if always_raises(n.body):
+                    ok = True
+        need(ok, f, "read-later->raise", f"{name}: a configuration value that may be read later must be *definitely* unchanged, otherwise the operation must raise",
+             f"{name}: AImplies(AMay(read later), ADef(unchanged)) guarded by raise: {ok}")
+        # what "read later" means: membership in the post-effects' global reads
+        ok = sw is not None and any(pat.has("_M_x = is_elem(_M_pt, _M_set)", n) for n in [f.node]) and _defined_from(f, sw[1]["_M_rd"], "READ_G")
+        need(ok, f, "read-later=READ_G(post)", f"{name}: 'read later' must be membership in the global reads of the code that follows")
+        # (2) visible unless definitely invisible; visible ones are collected and returned
+        rets = [n for n in f.body_nodes() if isinstance(n, ast.Return) and isinstance(n.value, ast.Name)]
+        ok = False
+        vis = None
+        for r in rets:
+            v = r.value.id
+            for n, bb in pat.find_all("if not _M_s.verify(_M_inv):\n    _M_v.add(_M_k)", f.node):
+                if ast.unparse(bb["_M_v"]) == v:
+                    vis = bb
+                    ok = True
+        need(ok, f, "not-invisible->reported", f"{name}: a field whose change is not provably invisible must be added to the returned set")
+        if vis is not None:
+            inv = ast.unparse(vis["_M_inv"])
+            d = None
+            for n in f.body_nodes():
+                if isinstance(n, ast.Assign) and isinstance(n.targets[0], ast.Name) and n.targets[0].id == inv:
+                    d = n.value
+            ok = isinstance(d, ast.Call) and last_name(d) == "ADef"
+            need(ok, f, "invisible=definitely", f"{name}: invisibility must hold *definitely* (ADef), not maybe")
+            if name == "Check_DeleteConfigWrite":
+                ok = d is not None and pat.has("ADef(AOr(_M_a, _M_b))", d) and {"unchanged", "overwritten"} <= {w for x in ast.walk(d) if isinstance(x, ast.Name) for w in ("unchanged", "overwritten") if w in x.id}
+                need(ok, f, "invisible=unchanged-or-overwritten", "a write is invisible iff it is definitely unchanged or definitely overwritten")
+            else:
+                ok = d is not None and any(isinstance(x, ast.Name) and "overwritten" in x.id for x in ast.walk(d))
+                need(ok, f, "invisible=overwritten", "after a callee swap a differing field is invisible only if it is definitely overwritten")
+    # Check_DeleteConfigWrite: statements may modify configuration only
+    f = m.func("Check_DeleteConfigWrite")
+    ok = False
+    g = pat.find("_M_p = ADef(is_empty(LDiff(_M_mod, _M_wrg)))", f.node)
+    if g is not None:
+        ok = _defined_from(f, g[1]["_M_mod"], "MODIFY") and _defined_from(f, g[1]["_M_wrg"], "WRITE_G")
+    need(ok, f, "only-global-mods", "inserted/deleted statements must modify configuration state only (MODIFY ∖ WRITE_G = ∅)")
+    res.floor = 10
+    return res
+
+
+def _defined_from(f: Func, name_node, es_kind: str) -> bool:
+    """Is the local (transitively, 2 levels) bound by getsets([... ES.<kind> ...]) / is_elem(_, that)?"""
+    want = ast.unparse(name_node)
+    for _ in range(3):
+        for n in f.body_nodes():
+            if isinstance(n, ast.Assign):
+                tg = n.targets[0]
+                names = [t.id for t in (tg.elts if isinstance(tg, ast.Tuple) else [tg]) if isinstance(t, ast.Name)]
+                if want in names:
+                    v = n.value
+                    if isinstance(v, ast.Call) and last_name(v) == "getsets" and isinstance(v.args[0], ast.List):
+                        kinds = [dotted(e).split(".")[-1] for e in v.args[0].elts]
+                        i = names.index(want)
+                        return i < len(kinds) and kinds[i] == es_kind
+                    if isinstance(v, ast.Call) and last_name(v) == "is_elem" and len(v.args) == 2:
+                        want = ast.unparse(v.args[1])
+                        break
+        else:
+            return False
+    return False
